@@ -11,5 +11,37 @@ TECHNIQUE = "TLA+ model checking (TLC, exhaustive + simulation) with every behav
 DESIGN_REF = "DESIGN.md section 4 C09"
 
 
+CONC_RULE = (" (P) family projection_conc: a seed-chosen sample of the same behaviours (quick 400, thorough 1500; those with a .config "
+             "group and at least two keys first) with the comparisons made by 2..8 goroutines released together after all results "
+             "have been projected (nothing else asked of the projection before): 20-40 rounds per behaviour, each preceded by a "
+             "history step (none / one more result with a never-seen EMPTY-valued file configuration key = new field, old key, nothing "
+             "observed anew / rendering a key), with 0, 70, 600 "
+             "or 3000 constant file configuration keys in front; every goroutine asks Key.Less of all ordered pairs and SortKeys of "
+             "shuffles against the model's matrix; a deviation that a fresh sequential run shows as well is left to family "
+             "projection; signatures less-matrix/concurrent, sortkeys/concurrent, less-panic/concurrent.")
+
+
 def run(ctx):
+    import random
+    orig = ctx.replay
+
+    def replay(family, cases, what, extra_args=(), **kw):
+        out = orig(family, cases, what, extra_args=extra_args, **kw)
+        if family == "projection":
+            rnd = random.Random(ctx.seed)
+            def weight(c):
+                grp = any(len(p["less"]) >= 2 and (".config" in p["flat"] or len(p["flat"]) > 2 or p["id"] in ("e1", "e5", "e6", "e7", "e11", "residue")) for p in c["proj"])
+                return (0 if grp else 1, rnd.random())
+            sub = sorted(cases, key=weight)[:400 if ctx.quick else 1500]
+            sub = [dict(c) for c in sub]
+            ctx.cov["concurrent_comparison_cases"] = len(sub)
+            # schedule-dependent by nature: a deviation class is confirmed when it recurs in one of up to 3 re-runs
+            orig("projection_conc", sub, "Key.Less / SortKeys from several goroutines after all results were projected", confirm="any", timeout=1500)
+        return out
+    ctx.replay = replay
+    fin = ctx.finish
+
+    def finish(rule, *a, **kw):
+        return fin(rule + CONC_RULE, *a, **kw)
+    ctx.finish = finish
     return projcommon.run(ctx, "c09")
